@@ -34,6 +34,12 @@ def corpus(tier):
             texts.append(("file:" + os.path.relpath(p, common.REPO), open(p).read()))
         except Exception:  # noqa
             pass
+    # line-break look-alikes: only "\n" counts as a line break for the grammar and for the diagnostics; CR alone,
+    # form feed, NEL, U+2028/2029 are ordinary (ignored or comment/string) characters and must not shift cited lines
+    base = 'version: "3"\n/* banner */\nenum E { a = 0, b = 1, }\n// note\nstruct S {\n    x @0: u8 | unit("m"),\n    e @1: E,\n}\nimpl can for S { id: 1, }\n'
+    texts.append(("file:synthetic/cr-only", base.replace("\n", "\r")))
+    texts.append(("file:synthetic/crlf", base.replace("\n", "\r\n")))
+    texts.append(("file:synthetic/separators", base.replace("banner", "ban\x0cner\x0b \x85 \u2028 x \u2029").replace('"m"', '"m\u2028\x0c"').replace("// note", "// no\x0cte \u2028")))
     ds, _ = descs.descriptions("quick")
     for i, (label, decls) in enumerate(ds):
         texts.append(("desc:%s:%d" % (label, i), print_schema(decls)))
